@@ -1,6 +1,6 @@
 """C16: trash-put's exit status tells the truth and arguments are handled
 independently."""
-from . import put, trashdirs, purge, scenarios
+from . import put, trashdirs, purge, scenarios, options
 
 PROPERTY = 'C16'
 
@@ -18,6 +18,11 @@ LEVEL_NOTE = ('run_put/trash_each: every argument processed once, in order, '
               'the argument; no attribute of a shared object is assigned while an '
               'argument is processed')
 EXPECTED = [
+    'put-options/mode-is-the-last-of-f-and-i',
+    'put-options/home-fallback-only-with-its-flag',
+    'put-options/trash-dir-is-the-last-trash-dir-value',
+    'put-options/files-are-the-operands-in-order',
+    'put-options/no-file-operand-is-a-usage-error-with-non-zero-exit',
     'put/run/every-argument-is-processed-once-in-order',
     'put/run/exit-status-0-iff-no-argument-failed',
     'put/run/same-options-for-every-argument',
@@ -37,6 +42,7 @@ def build(S, tier, seed):
     put.trash_file_vc(S)
     put.trash_single_vc(S)
     put.run_put_vc(S)
+    options.put_options_vc(S)
 
 
 def _battery(S, r, o):
@@ -52,4 +58,4 @@ KF_CLASSES = {}
 def finalize_args(S, tier, seed):
     return {'bounded': [{'what': 'run_put VC: argument lists of length 0..3',
                          'counts_as_proof': False}],
-            'extra_assumptions': ['argparse wiring of trash-put is assumed']}
+            'extra_assumptions': ['argparse is modelled (pyvc/argmodel.py) for argument vectors of the canonical shape options.. [--] operands..; abbreviations, --opt=value, clustered flags and operands before options are outside the model; the option VC is bounded to <= 2 option tokens and <= 2 operands']}
